@@ -129,9 +129,30 @@ func runC17(c *Ctx, r *Rec) {
 			continue
 		}
 		env := &symEnv{info: info, base: base}
+		// sibling methods called on the receiver (HasNext, HasPrevious, private helpers) are interpreted in place
+		env.recvs = map[types.Object]bool{}
+		if ro := recvObj(info, fd); ro != nil {
+			env.recvs[ro] = true
+		}
+		self := fd
+		env.inlinable = func(call *ast.CallExpr) *ast.FuncDecl {
+			rx, mname, _, ok := methodCall(call)
+			if !ok {
+				return nil
+			}
+			id, isID := ast.Unparen(rx).(*ast.Ident)
+			if !isID || !env.recvs[info.Uses[id]] {
+				return nil
+			}
+			d := ms[mname]
+			if d == nil || d == self || d.Body == nil || len(loopsIn(d.Body)) > 0 {
+				return nil
+			}
+			return d
+		}
 		paths := symRun(env, fd.Body)
 		if len(env.problems) > 0 {
-			r.undecided("D1-cursor", construct, c.pos(fd.Pos()), "SYM cannot interpret the body: "+strings.Join(dedup(env.problems), "; "))
+			r.skip("D1-cursor", construct, c.pos(fd.Pos()), "SYM cannot interpret the body: "+strings.Join(dedup(env.problems), "; "))
 			continue
 		}
 		for i := range paths {
